@@ -26,6 +26,8 @@ def plan(tier, seed):
     jobs.append(ch("C18", "vf/pyshim/h_write.py", "h_write_append_options", t,
                    ["writer.write (append branch: up-front refusals)"]))
     jobs.append(ch("C18", "vf/pyshim/h_c05.py", "h_unknown_filter_column", t, ["api.filter_row_groups (column check)"]))
+    jobs.append(ch("C18", "vf/pyshim/h_labels.py", "h_required_null_refused", t,
+                   ["writer.convert (object encodings)", "writer.encode_plain", "speedups.pack_byte_array"]))
     extra = dict(
         explanation="A late rejection (any exception out of a column write) is injected at a symbolic row-group "
                     "position after a symbolic number of bytes of that row group were written; the real write_simple "
